@@ -244,7 +244,9 @@ def run_engine(engine, seed, n, tier, start=0, shards=1, extra_env=None):
     (caseline, verdictline) and the class histogram."""
     per = (n + shards - 1) // shards
     procs = []
-    tmpd = tempfile.mkdtemp(prefix=f"r{engine[:3]}", dir=BUILD)  # short: generated reference names go up to the path limit
+    # scratch repositories live under a SHORT path that does not depend on where /verif is checked out: one family of
+    # generated reference names is as long as the path limit allows (and must stay above 4 044 bytes to be of use)
+    tmpd = tempfile.mkdtemp(prefix=f"v{engine[:3]}", dir=os.environ.get("VERIF_TMP", "/tmp"))
     env = dict(os.environ)
     env["PATH"] = BIN + os.pathsep + env.get("PATH", "")
     env["VERIF_BIN"] = BIN
@@ -295,7 +297,7 @@ def run_lines(lines):
     env = dict(os.environ)
     env["PATH"] = BIN + os.pathsep + env.get("PATH", "")
     env["VERIF_BIN"] = BIN
-    tmpd = tempfile.mkdtemp(prefix="rpl", dir=BUILD)
+    tmpd = tempfile.mkdtemp(prefix="vrpl", dir=os.environ.get("VERIF_TMP", "/tmp"))
     env["VERIF_SCRATCH"] = tmpd
     p = subprocess.run([os.path.join(BIN, "drv"), "exec"], input="\n".join(lines) + "\n", stdout=subprocess.PIPE,
                        stderr=subprocess.PIPE, text=True, env=env, cwd=tmpd)
